@@ -171,6 +171,15 @@ def instrument(unit, scratch, gb, cover=False):
                     repl.append(g)
     except Exception:
         pass
+    # callees that have a contract in this TU but no body (a call the repository gained after the unit was
+    # written, e.g. a parser that starts using an encoder): use the contract instead of failing on
+    # "undefined function"
+    rc1, undef, _ = run(['goto-instrument', '--list-undefined-functions', gb], scratch, 120)
+    undefined = set(l.strip() for l in undef.splitlines())
+    contracted = set(re.findall(r'^Symbol\.*: contract::(\w+)$', symtxt, flags=re.M))
+    auto = sorted(g for g in (undefined & contracted) if g not in repl and g not in enf)
+    repl += auto
+    unit['_auto_replaced'] = auto
     unit['_replace_effective'] = repl
     for g in repl:
         cmd += ['--replace-call-with-contract', g]
@@ -234,13 +243,13 @@ def resolve_unwindset(unit, scratch, gb):
 _tagcache = {}
 
 
-def contract_tags(path, fn):
+def contract_tags(path, fn, ctl=False):
     """Ordered tags of the V_ENSURES clauses of the contract attached to the declaration of `fn`
     in contract header `path` (one clause per line, tag in a trailing /*@tag*/ comment).  CBMC
     numbers postcondition obligations in clause order; its reported line numbers are unreliable
     (off by one for some clauses), so the mapping is by order and is only used when the clause
     count matches the obligation count."""
-    key = (path, fn)
+    key = (path, fn, ctl)
     if key in _tagcache:
         return _tagcache[key]
     tags = None
@@ -250,6 +259,8 @@ def contract_tags(path, fn):
         if m:
             tags = []
             for line in m.group(1).splitlines():
+                if line.strip().startswith('V_ENSURES_WF') and ctl:
+                    continue      # compiled out in control-only units (-DVERIF_CTL)
                 if line.strip().startswith('V_ENSURES'):
                     t = re.search(r'/\*@([^*]+)\*/\s*$', line)
                     tags.append(t.group(1).strip() if t else None)
@@ -307,7 +318,7 @@ def obligation_record(unit, r):
         f = sl.get('file', '')
         if f and not os.path.isabs(f):
             f = os.path.join(sl.get('workingDirectory', ''), f)
-        tags = contract_tags(f, fn.replace('_wrapped_for_contract_checking', ''))
+        tags = contract_tags(f, fn.replace('_wrapped_for_contract_checking', ''), 'VERIF_CTL' in unit.get('defines', []))
         try:
             k = int(r['property'].rsplit('.', 1)[1])
         except Exception:
@@ -386,6 +397,8 @@ def run_unit(unit, tier, keep=False, verbose=False):
         checks = list(BASE_CHECKS)
         for c in unit.get('drop_checks', []):
             checks.remove(c)
+            # CBMC 6 enables the standard checks by default: a dropped class must be switched off explicitly
+            checks.append('--no-' + c[2:])
         extra = os.environ.get('VERIF_CBMC_EXTRA', '').split()
         # NOTE: the cost of a --dfcc unit grows steeply with --object-bits (the contract library keeps
         # per-object sets of 2^bits entries): 8 bits 16 s, 10 bits 190 s, 12 bits > 10 min on the same
@@ -407,7 +420,7 @@ def run_unit(unit, tier, keep=False, verbose=False):
             cmd += ['--sat-solver', 'cadical']
         elif solver in ('z3', 'cvc5'):
             cmd += ['--' + solver]
-        cmd += ['--trace', '--json-ui', '--verbosity', '8']
+        cmd += ([] if os.environ.get('VERIF_NOTRACE') else ['--trace']) + ['--json-ui', '--verbosity', '8']
         res['cmds'].append(' '.join(cmd))
         res['backend'] = solver or 'minisat (cbmc default)'
         outp = os.path.join(scratch, 'cbmc.json')
@@ -452,6 +465,15 @@ def run_unit(unit, tier, keep=False, verbose=False):
                 npost[f0] = npost.get(f0, 0) + 1
         unit = dict(unit, _npost=npost)
         obs = [obligation_record(unit, r) for r in results]
+        # control-only units: obligations outside the unit's subject (generated memory checks, callee
+        # preconditions about buffer shapes, contract-library internals) are generated by CBMC but belong to
+        # the companion memory-safety unit; they are kept in the log and attributed to no property here
+        if unit.get('only'):
+            pats = [re.compile(x) for x in unit['only']]
+            for o in obs:
+                if not any(p.search(o['key']) for p in pats):
+                    o['props'] = []
+                    o['unattributed'] = True
         res['obligations'] = obs
         # silently-dropped-contract guard
         classes = {}
@@ -466,6 +488,13 @@ def run_unit(unit, tier, keep=False, verbose=False):
         if not obs:
             res['status'] = 'UNDECIDED'
             res['why'] = 'zero obligations generated'
+        for o in obs:
+            if o['status'] == 'FAILURE' and 'undefined function should be unreachable' in o['description']:
+                # the code now calls a function this unit has neither a body nor a contract for: the unit
+                # cannot decide anything about that path (needs a contract) -- not a violation
+                res['status'] = 'UNDECIDED'
+                res['why'] = 'call to %s, for which the unit has neither body nor contract' % o['function']
+                o['status'] = 'UNKNOWN'
         for o in obs:
             if o['class'] == 'unwind' and o['status'] == 'FAILURE':
                 # an unwinding assertion failing is "bound too small", not a violation
@@ -748,6 +777,8 @@ def assumption_scan(unit):
     out = []
     for g in unit.get('replace', []):
         out.append('callee replaced by its contract: %s' % g)
+    for g in unit.get('_auto_replaced', []):
+        out.append('callee replaced by its contract (no body in this unit): %s' % g)
     text = ''
     try:
         text = open(os.path.join(VERIF, unit['file'])).read()
@@ -768,6 +799,8 @@ def assumption_scan(unit):
         out.append('functions %s extracted verbatim from %s on every run (rest of the file not in this unit)' % (','.join(ex['functions']), ex['file']))
     for c in unit.get('drop_checks', []):
         out.append('check class disabled in %s: %s' % (unit['name'], c))
+    if unit.get('only'):
+        out.append('unit %s attributes only obligations matching %s; every other generated obligation of this unit is the subject of its companion memory-safety unit and is not counted here' % (unit['name'], unit['only']))
     return out
 
 
@@ -956,6 +989,8 @@ def main():
             cnt[o['status']] = cnt.get(o['status'], 0) + 1
         print('obligations:', len(r['obligations']), cnt)
         for o in r['obligations']:
+            if o.get('unattributed') and not a.verbose:
+                continue
             if o['status'] != 'SUCCESS' and (o['status'] == 'FAILURE' or a.verbose):
                 print('  %-8s %s  [%s] %s:%s' % (o['status'], o['key'], o['name'], o['file'], o['line']))
                 if a.replay and o['status'] == 'FAILURE':
